@@ -767,11 +767,11 @@ def r_arith(ctx):
                             for k in rv["sites"])
                 if moved:
                     ctx.site(rid, key + "|moved", file, line, {"note": "the reviewed expression, moved within its file"})
-                elif not re.fullmatch(r"\(?\s*(0[xX][0-9A-Fa-f_]+|0[bB][01_]+|[0-9_]+|[A-Z][A-Z_0-9]*)(?:[iu](?:8|16|32|64|128|size))?\s*\)?", rhs.strip()):
-                    ctx.violation(rid, key, file, line, "unreviewed subtraction of two run-time quantities: unsigned `a - b` underflows when b > a; it needs "
-                                  "saturating_sub / checked_sub or a review entry naming the guard that makes it safe")
+                elif re.search(r"\.(len|count)\(\)", rhs) and re.search(r"\.(len|count)\(\)", expr[:len(expr) - len(rhs)]):
+                    ctx.violation(rid, key, file, line, "unreviewed subtraction of one length from another: unsigned `a.len() - b.len()` underflows when the "
+                                  "second is larger; it needs saturating_sub / checked_sub or a review entry naming the guard that makes it safe")
                 else:
-                    ctx.incomplete_msg(rid, "%s: unreviewed subtraction of a constant; whether the left operand is always at least that large cannot be "
+                    ctx.incomplete_msg(rid, "%s: unreviewed subtraction; whether the left operand is always at least as large as the right one cannot be "
                                             "decided from the expression — review it and add it to spec/c05_arith_reviewed.json" % key)
             else:
                 ctx.site(rid, key + "|auto-structural", file, line, {"note": "not in the reviewed table; operands are lengths, counters or positions"})
